@@ -65,8 +65,14 @@ RULES = {
     "`Sequence[int]`) is read - itself, through a local derived from it or as the loop variable over it - by a test that governs a `raise`: "
     "what the library's own device-configuration check would report afterwards (a device index outside range(num_devices), an axis out of "
     "range, fewer than one shard, a negative stage) is refused by the request instead of being recorded",
+    "R16": "configurations are told apart by identity: in the annotation API, an expression whose type is one of the device-annotation "
+    "value classes (ModelConfiguration - a frozen dataclass that compares by value -, NodeDeviceConfiguration, ShardingSpec) is compared "
+    "with `is` / `is not`, never with `==` / `!=`, and its membership in `device_configurations` is asked with `any(c is x …)`, not with "
+    "`in`: a configuration that merely equals the registered one (the handle of the model as it was before a round trip) is otherwise "
+    "taken for it - `remove_device_configuration(obj, cascade=True)` then unregisters the model's configuration while the cascade, which "
+    "matches by identity, finds no annotation to drop: every annotation is left pointing at a configuration that is no longer registered",
 }
-FLOORS = {"R1": 12, "R2": 4, "R3": 4, "R4": 4, "R5": 4, "R6": 6, "R7": 2, "R8": 3, "R9": 2, "R10": 10, "R11": 10, "R12": 1, "R13": 3, "R14": 1, "R15": 4}
+FLOORS = {"R1": 12, "R2": 4, "R3": 4, "R4": 4, "R5": 4, "R6": 6, "R7": 2, "R8": 3, "R9": 2, "R10": 10, "R11": 10, "R12": 1, "R13": 3, "R14": 1, "R15": 4, "R16": 1}
 EXPLANATION = (
     "Structural checks on the record classes, on every writer of a node's input/output tuples, on the serializer's "
     "name derivation, the C06 write-before-reject analysis for the annotation API, and ordering (dominator) checks in "
@@ -601,7 +607,47 @@ def _loop_vars_over(f, p_):
     return out
 
 
+_ANNOTATION_VALUE_CLASSES = {"ModelConfiguration", "NodeDeviceConfiguration", "ShardingSpec", "ShardedDim", "SimpleShardedDim"}
+
+
+def rule_r16(ctx):
+    ty = ctx.typer
+    n = 0
+    for f in _annotation_api(ctx.repo):
+        for c in own_nodes(f.node):
+            if not (isinstance(c, ast.Compare) and len(c.ops) == 1):
+                continue
+            op = c.ops[0]
+            l, r = c.left, c.comparators[0]
+
+            def classes(e):
+                try:
+                    return {a[1].name for a in ty.type_of(f, e) if a[0] == "cls" and hasattr(a[1], "name")}
+                except Exception:
+                    return set()
+
+            cl, cr = classes(l) & _ANNOTATION_VALUE_CLASSES, classes(r) & _ANNOTATION_VALUE_CLASSES
+            coll = isinstance(op, (ast.In, ast.NotIn)) and any(isinstance(y, ast.Attribute) and y.attr in ("device_configurations", "sharding_specs") for y in ast.walk(r))
+            if isinstance(op, (ast.Is, ast.IsNot)) and (cl or cr):
+                n += 1
+                ctx.ob("R16", f"{f.local}: `{norm(c)[:60]}` compares annotation objects by identity", True, how="typed operands; `is` / `is not`")
+                continue
+            # both sides are annotation objects (`c != target`), or an annotation object is looked up in a collection of them
+            by_value = (isinstance(op, (ast.Eq, ast.NotEq)) and bool(cl) and bool(cr)) or (coll and bool(cl))
+            if not by_value:
+                continue
+            n += 1
+            ctx.check("R16", f"{f.local}: `{norm(c)[:60]}` tells configurations apart by identity", False, f, c,
+                      f"`{norm(c)[:70]}` compares annotation objects by value: a configuration that only equals the registered one is treated as the registered one - it is removed from the "
+                      "model although the annotations that refer to the registered object (matched by identity in the cascade) stay, so nodes end up annotated for a configuration "
+                      "their model does not declare, and a request that should be rejected without effect goes through",
+                      how="comparisons in the annotation API whose operands are typed as device-annotation value classes: `is` / `is not` and any(… is …) only",
+                      construct=f"configurations compared by value: {norm(c)[:50]}")
+    ctx.require(n >= 1, f"only {n} comparisons of annotation objects found in the annotation API")
+
+
 def run(ctx):
+    rule_r16(ctx)
     rule_r15(ctx)
     rule_r14(ctx)
     from ..shared import rule_s17
